@@ -40,7 +40,8 @@ from ..core import Ctx
 
 LEVEL = "model_checking"
 TOL = 1e-9
-INVARIANTS = ["NonNegative", "SumToOne", "AtLeastOneModel", "BayesRule", "ModeMixValid", "MixtureMoments",
+INVARIANTS = ["NonNegative", "SumToOne", "AtLeastOneModel", "BayesRule", "ResetOnlyOnTrueUnderflow", "ModeMixValid",
+              "MixtureMoments",
               "SpreadForm", "HandBackIsSurvivor", "NotClosedEarly", "TieFree", "PruneNeverEmpties"]
 
 _RT: dict = {}
@@ -96,7 +97,21 @@ def rt():
         def is_angular(self):
             return IsAngle.NOT_ANGLE
 
-    _RT.update(Observation=Observation, GPB1=GeneralizedPseudoBayesian1, SMM=StaticMultipleModel,
+    class Const(MeasurementType):
+        """A measurement that does not depend on the state (value 0): it only enlarges the stacked
+        measurement; its block of the innovation covariance is exactly its R block."""
+
+        def __init__(self, label):
+            self.LABEL = label
+
+        def calculate(self, sen_eci_state, tgt_eci_state, utc_date):
+            return 0.0
+
+        @property
+        def is_angular(self):
+            return IsAngle.NOT_ANGLE
+
+    _RT.update(Const=Const, Observation=Observation, GPB1=GeneralizedPseudoBayesian1, SMM=StaticMultipleModel,
                UKF=UnscentedKalmanFilter, StandardNis=StandardNis, FilterFlag=FilterFlag,
                Measurement=Measurement, Identity=Identity, ConstantVelocity=ConstantVelocity, Channel=Channel,
                stack=stackingFactory(StackingLabel.ECI_STACKING))
@@ -150,6 +165,36 @@ def _lat_obs(y, t):
     meas = _RT.setdefault("lat_meas", r["Measurement"]([r["Channel"](1)], np.array([[R_LAT]])))
     return r["Observation"](julian_date=JD0 + t / 86400.0, target_id=10001, sensor_id=200001, sensor_type="AdvRadar",
                             sensor_eci=np.zeros(6), measurement=meas, range_km=float(y))
+
+
+COLS = ("range_km", "range_rate_km_p_sec", "azimuth_rad", "elevation_rad")
+# regimes of one replayed update: (name, signature tag, number of stacked 4-D pad observations, pad variance)
+REGIMES = {
+    "plain": ("", 0, 1.0),
+    "small": ("-likelihoods-small-not-underflowed", 0, 1.0),
+    "detsmall3": ("-determinant-underflow", 3, 1e-30), "detsmall10": ("-determinant-underflow", 10, 1e-10),
+    "detbig3": ("-determinant-overflow", 3, 1e30), "detbig10": ("-determinant-overflow", 10, 1e10),
+}
+
+
+# one signature per mechanism for the updates of a non-plain regime (the clause that noticed it goes in the text)
+REGIME_SIGNATURE = {
+    "-likelihoods-small-not-underflowed": "reset-without-underflow",
+    "-determinant-overflow": "reset-without-underflow-determinant-overflow",
+    "-determinant-underflow": "nan-probabilities-determinant-underflow",
+}
+
+
+def _pad_obs(t, var):
+    """An observation of four state-independent zero measurements with variance `var` and innovation 0:
+    it multiplies every model's likelihood by the same factor (2 pi var)^-2 and nothing else."""
+    r = rt()
+    key = ("pad_meas", var)
+    if key not in _RT:
+        _RT[key] = r["Measurement"]([r["Const"](c) for c in COLS], var * np.eye(4))
+    return r["Observation"](julian_date=JD0 + t / 86400.0, target_id=10001, sensor_id=200002, sensor_type="AdvRadar",
+                            sensor_eci=np.zeros(6), measurement=_RT[key], range_km=0.0, range_rate_km_p_sec=0.0,
+                            azimuth_rad=0.0, elevation_rad=0.0)
 
 
 def _lat_model(lay, mid):
@@ -206,7 +251,13 @@ def _moment_flags(f, models, p, scale_tol=TOL):
     mean_ok = finite and bool(np.max(np.abs(ex - mean)) <= scale_tol * sx)
     mom_ok = finite and bool(np.max(np.abs(ep - cov)) <= scale_tol * sp)
     sym_ok = finite and bool(np.max(np.abs(ep - ep.T)) <= scale_tol * sp)
-    psd_ok = finite and bool(np.min(np.linalg.eigvalsh((ep + ep.T) / 2)) >= -scale_tol * sp)
+    # a mixture is PSD when its members are; a member filter's own round-off deficit is not the mixture's fault
+    floor = 0.0
+    for m in models:
+        pm = np.asarray(m.est_p, dtype=float)
+        if np.all(np.isfinite(pm)):
+            floor = min(floor, float(np.min(np.linalg.eigvalsh((pm + pm.T) / 2))))
+    psd_ok = finite and bool(np.min(np.linalg.eigvalsh((ep + ep.T) / 2)) >= 2 * floor - scale_tol * sp)
     return mean_ok, mom_ok, sym_ok, psd_ok
 
 
@@ -225,9 +276,13 @@ def replay_behaviour(beh, seed):
     t = 0.0
     steps = 0
     alt = False
+    stale_dim = 0
 
     def bad(clause, what, k, extra=None):
         tag = f"{kind}-{clause}"
+        for rt_, name in REGIME_SIGNATURE.items():
+            if clause.endswith(rt_):
+                tag, what = f"{kind}-{name}", f"[{clause[:-len(rt_)]}] {what}"
         viol.append((tag, f"real {type(f).__name__}: {what} (update {k + 1})",
                      {"behaviour": beh, "step": k, "seed": seed, "detail": extra}))
 
@@ -244,22 +299,54 @@ def replay_behaviour(beh, seed):
             # g = 2: the specification says the gate is not consulted in this update, so its value must
             # not matter: realise it as "would hold" or "would fail" at random
             gate_true = st["g"] == 1 or (st["g"] == 2 and rng.random() < 0.5)
-            base = 0.0 if gate_true else 30.0
-            for m, lv in zip(before, L):
-                if lv == 0:
-                    nis, s_m = 2000.0 + rng.uniform(0.0, 200.0), math.exp(-rng.uniform(0.0, 1.0))
+            # The likelihoods of one update are c * (integer likelihood of the spec); Bayes' rule does not
+            # depend on c, so c is drawn from regimes in which a naive evaluation misbehaves although every
+            # non-zero likelihood is representable: all NIS in 70..1300, det(S) under/overflowing.
+            regime = rng.choices(["plain", "small", "detsmall3", "detsmall10", "detbig3", "detbig10"],
+                                 weights=(54, 20, 10, 3, 10, 3))[0]
+            if regime == "small" and gate_true:
+                regime = "plain"
+            rtag, npad, pvar = REGIMES[regime]
+            pad_logdet = 4 * npad * math.log(pvar)
+            # "gate fails": combined NIS far above any chi-square bound of the stacked dimension 1 + 4 npad
+            base = 0.0 if gate_true else (rng.choice((70.0, 150.0, 600.0, 1300.0)) if regime == "small"
+                                          else 30.0 + 8.0 * npad)
+            # 0 in the spec = TRUE underflow: exp(log-likelihood) is 0.0 in IEEE double however it is evaluated
+            nis_zero = 2000.0 + max(0.0, -pad_logdet)
+            all_zero = not any(L)
+            pri = np.asarray(f.model_weights if kind == "smm" else f.mode_probabilities, dtype=float)
+            logw = []
+            for j, (m, lv) in enumerate(zip(before, L)):
+                if all_zero:
+                    # total underflow: the documented fallback (SMM uniform, GPB1 prior) and Bayes' rule on the
+                    # log-likelihoods coincide when prior * likelihood is the same for every model
+                    nis = nis_zero + (2.0 * math.log(pri[j] / pri.min()) if kind == "smm" else 0.0)
+                    s_m = 1.0
+                elif lv == 0:
+                    nis, s_m = nis_zero + rng.uniform(0.0, 200.0), math.exp(-rng.uniform(0.0, 1.0))
                 else:
                     d = rng.uniform(0.0, 0.08) if gate_true else rng.uniform(0.0, 3.0)
                     nis, s_m = base + d, math.exp(-d) * (lmax / lv) ** 2
+                dim = 1 + 4 * npad
+                logw.append(math.log(pri[j]) - 0.5 * nis - 0.5 * (dim * math.log(2 * math.pi) + math.log(s_m) + pad_logdet)
+                            if pri[j] > 0 else -math.inf)
                 nu = math.sqrt(nis * s_m) * rng.choice((-1.0, 1.0))
                 m.est_x = np.array([m.est_x[0], y - nu])
                 p = np.array(m.est_p, dtype=float, copy=True)
                 p[0, 1] = p[1, 0] = 0.0
                 p[1, 1] = s_m - R_LAT
                 m.est_p = p
-            obs = [_lat_obs(y, t)]
+            obs = [_lat_obs(y, t)] + [_pad_obs(t, pvar) for _ in range(npad)]
+            # total mass as a naive evaluation sees it (the code normalises the Gaussian with the measurement
+            # dimension of the PREVIOUS update): representable but below 1e-14 is the same regime as "small"
+            top = max(logw)
+            naive = -math.inf if top == -math.inf else (top + math.log(sum(math.exp(v - top) for v in logw))
+                                                        + 0.5 * (dim - stale_dim) * math.log(2 * math.pi))
+            if not all_zero and not rtag and naive < math.log(1e-14):
+                rtag = REGIMES["small"][0]
+            stale_dim = dim
         else:
-            obs = []
+            obs, rtag, regime = [], "", "plain"
         try:
             f.predict(t)
             f.update(obs)
@@ -274,7 +361,7 @@ def replay_behaviour(beh, seed):
         w = np.asarray(f.model_weights, dtype=float)
         tot = sum(st["mass"])
         exp_w = np.array([x / tot for x in st["mass"]])
-        suffix = "-after-reset" if st["reset"] else ("-all-below-threshold" if st["adm"] else "")
+        suffix = ("-after-reset" if st["reset"] else ("-all-below-threshold" if st["adm"] else "")) + rtag
         # --- structure: arrays stay parallel, at least one model
         if not (len(f.models) == f.num_models == len(w) == len(f.model_likelihoods) == len(f.mode_probabilities)):
             bad("arrays-not-parallel", f"models/num_models/weights/likelihoods/mode lengths differ: {len(f.models)}/"
@@ -295,7 +382,9 @@ def replay_behaviour(beh, seed):
                 f"(before: {ids_before})", k, {"weights": w.tolist()})
             break
         if np.max(np.abs(w - exp_w)) > TOL:
-            bad("probabilities-mismatch" + suffix, f"weights {w.tolist()} differ from Bayes rule {exp_w.tolist()}", k)
+            bad("probabilities-mismatch" + suffix, f"weights {w.tolist()} differ from Bayes rule {exp_w.tolist()}"
+                + (f" [regime {regime}: every non-zero likelihood of the specification is representable in double]"
+                   if rtag else ""), k)
             break
         if kind == "gpb1":
             mp = np.asarray(f.mode_probabilities, dtype=float)
@@ -436,17 +525,21 @@ def _measurement(which):
     if which == "radar4":
         m = r["Measurement"].fromMeasurementLabels(["azimuth_rad", "elevation_rad", "range_km", "range_rate_km_p_sec"],
                                                    np.diag([1e-6, 1e-6, 1e-2, 1e-6]))
+    elif which == "advradar4":     # the AdvRadar noise of the repository's test configurations (det ~ 2.9e-38)
+        m = r["Measurement"].fromMeasurementLabels(["azimuth_rad", "elevation_rad", "range_km", "range_rate_km_p_sec"],
+                                                   np.diag([2.38820057e-11, 3.73156339e-11, 9.0e-08, 3.61e-10]))
     elif which == "optical2":
         m = r["Measurement"].fromMeasurementLabels(["azimuth_rad", "elevation_rad"], np.diag([1e-6, 1e-6]))
     elif which == "rr2":
         m = r["Measurement"].fromMeasurementLabels(["range_km", "range_rate_km_p_sec"], np.diag([1e-2, 1e-6]))
-    else:   # "lin3": three position components through custom linear channels
+    else:   # "lin3*": three position components through custom linear channels
         chans = []
         for idx, lab in ((0, "range_km"), (1, "azimuth_rad"), (2, "elevation_rad")):
             c = r["Channel"](idx)
             c.LABEL = lab
             chans.append(c)
-        m = r["Measurement"](chans, np.diag([0.04, 0.04, 0.04]))
+        var = {"lin3": 0.04, "lin3tiny": 1e-12, "lin3big": 1e9}[which]
+        m = r["Measurement"](chans, var * np.eye(3))
     _RT[key] = m
     return m
 
@@ -543,6 +636,7 @@ def gen_trace(tid, seed, max_steps):
     recs, aux, viol = [], [], []
     truth, t = TRUTH0.copy(), 0.0
     jump_at = rng.randrange(1, max_steps) if scenario == "late-jump" else -1
+    prev_dim = 0
     for k in range(max_steps):
         before = list(f.models)
         ids_before = [ident[id(m)] for m in before]
@@ -553,7 +647,12 @@ def gen_trace(tid, seed, max_steps):
         noobs = k >= 1 and rng.random() < 0.1
         if k == jump_at:
             truth = truth + np.array([400.0, -300.0, 250.0, 0.3, -0.2, 0.1]) * rng.choice((1.0, 3.0))
-        obs = [] if noobs else [_observe(which, truth, t, nrng)]
+        # which sensors see the target changes from step to step: kind of measurement and how many are stacked
+        # (up to 40 dimensions; tiny and huge innovation covariances make det(S) under/overflow)
+        step_which, nobs = rng.choices(
+            [(which, 1), (which, 2), ("optical2", 3), ("lin3", 4), ("advradar4", 1), ("advradar4", 10),
+             ("lin3tiny", 13), ("lin3big", 13)], weights=(58, 8, 5, 6, 6, 3 if n <= 4 else 0, 7, 7 if k >= 1 else 0))[0]
+        obs = [] if noobs else [_observe(step_which, truth, t, nrng) for _ in range(nobs)]
         cap["mid_ids"], cap["w_mid"] = None, None
         GATE_LOG.clear()
         try:
@@ -595,72 +694,105 @@ def gen_trace(tid, seed, max_steps):
                "mid": cap["mid_ids"] if cap["mid_ids"] is not None else ids_after,
                "gate": gate, "closed": int(closed), "hb": hb,
                "finOk": int(fin_ok), "parOk": int(par_ok), "meanOk": int(flags[0]), "momOk": int(flags[1]),
-               "symOk": int(flags[2]), "psdOk": int(flags[3]), "skip": 0,
+               "symOk": int(flags[2]), "psdOk": int(flags[3]), "skip": 0, "under": 0,
                "W": _quant(w_prior), "M": _quant(m_prior), "L": [0] * len(before),
                "PW": _quant(w_post) if fin_ok else [0] * len(w_post), "PM": _quant(m_post) if fin_ok else [0] * len(m_post)}
-        ax = {"why": "", "w_mid": None if cap["w_mid"] is None else cap["w_mid"].tolist(), "w_post": w_post.tolist(),
+        ax = {"why": "", "regime": "", "w_mid": None if cap["w_mid"] is None else cap["w_mid"].tolist(), "w_post": w_post.tolist(),
               "m_post": m_post.tolist(), "n": n, "which": which, "scenario": scenario, "two_body": two_body, "seed": seed}
+        ax["measurement"] = [step_which, nobs]
+        logl = None
+        if not noobs:
+            # likelihoods recomputed, with logarithms, from each model's logged innovation and innovation covariance
+            logl, naive_det = [], []
+            ill = False
+            for m in before:
+                nu = np.asarray(m.innovation, dtype=float).reshape(-1)
+                s_m = np.asarray(m.innov_cvr, dtype=float)
+                sign, logdet = np.linalg.slogdet(s_m)
+                nis = float(nu @ np.linalg.solve(s_m, nu)) if sign > 0 else math.nan
+                if sign <= 0 or not np.isfinite(nis) or not np.isfinite(logdet):
+                    logl = None
+                    break
+                if abs(nis - float(m.nis)) > 1e-7 * (1.0 + abs(nis)):
+                    ill = True      # S so ill-conditioned that the quadratic form depends on how it is evaluated
+                logl.append(-0.5 * nis - 0.5 * (len(nu) * math.log(2 * math.pi) + logdet))
+                naive_det.append(float(np.linalg.det(s_m)))
+        pri = w_prior if kind == "smm" else m_prior
+        pq = rec["W"] if kind == "smm" else rec["M"]
+        under_all = False
+        if logl is not None:
+            # TRUE underflow: exp(log-likelihood) is 0.0 in IEEE double for every model
+            under_all = all(math.exp(ll) == 0.0 for ll in logl)
+            rec["under"] = int(under_all)
+            d = len(np.asarray(before[0].innovation).reshape(-1))
+            lw = [math.log(p) + ll if p > 0 else -math.inf for p, ll in zip(pri, logl)]
+            top = max(lw)
+            logtot = top + math.log(sum(math.exp(v - top) for v in lw)) if np.isfinite(top) else -math.inf
+            # regime of the update (names the mechanism in the signature of a violation)
+            if any(x == 0.0 for x in naive_det):
+                ax["regime"] = "-determinant-underflow"
+            elif any(not np.isfinite(x) for x in naive_det):
+                ax["regime"] = "-determinant-overflow"
+            elif not under_all and min(logtot + 0.5 * (d - k_) * math.log(2 * math.pi) for k_ in (0, d, prev_dim)) \
+                    < math.log(1e-14):
+                ax["regime"] = "-likelihoods-small-not-underflowed"   # (the code normalises with the previous dimension)
+            prev_dim = d
         if not fin_ok:
             rec["skip"] = 1
             ax["why"] = "invalid"
         elif not noobs:
-            # likelihoods recomputed from each model's logged innovation and innovation covariance
-            logl, under = [], []
-            for m in before:
-                nu = np.asarray(m.innovation, dtype=float).reshape(-1)
-                s_m = np.asarray(m.innov_cvr, dtype=float)
-                nis = float(nu @ np.linalg.solve(s_m, nu))
-                sign, logdet = np.linalg.slogdet(s_m)
-                if sign <= 0 or not np.isfinite(nis):
-                    logl = None
-                    break
-                under.append(math.exp(-0.5 * nis) == 0.0)
-                logl.append(-0.5 * nis - 0.5 * (len(nu) * math.log(2 * math.pi) + logdet))
-            pri = w_prior if kind == "smm" else m_prior
-            pq = rec["W"] if kind == "smm" else rec["M"]
             if logl is None:
                 rec["skip"], ax["why"] = 1, "degenerate-innovation-covariance"
-            elif all(under):
-                rec["L"] = [0] * len(before)
-                if kind == "smm":
-                    ax["bounds_mid"] = None    # reset to exactly uniform
-                else:                          # reset to the prior mode probabilities (projected)
-                    tot_q = float(sum(pq))
-                    ax["bounds_mid"] = [(max(v - 0.5, 0.0) / (tot_q + 0.5 * len(pq)), (v + 0.5) / (tot_q - 0.5 * len(pq)))
-                                        for v in pq]
+            elif ill:
+                rec["skip"], ax["why"] = 1, "ill-conditioned-innovation-covariance"
             else:
-                lmax = max(ll for ll, u in zip(logl, under) if not u)
-                ratio = [0.0 if u else math.exp(ll - lmax) for ll, u in zip(logl, under)]
-                rec["L"] = [int(round(LQ * x)) for x in ratio]
-                exact = [u or x == 1.0 for u, x in zip(under, ratio)]
-                # total mass as the code sees it (with and without its (2 pi)^dim factor)
-                d = len(np.asarray(before[0].innovation).reshape(-1))
-                tot = sum(p * math.exp(ll) for p, ll, u in zip(pri, logl, under) if not u)
-                band = min(tot, tot * (2 * math.pi) ** (d / 2.0))
-                idx = list(range(len(before)))
-                bounds, slo = _intervals(pq, rec["L"], exact, idx)
-                if band < 1e-12:
-                    rec["skip"], ax["why"] = 1, "mass-in-reset-band"
-                elif slo <= 0:
-                    rec["skip"], ax["why"] = 1, "projection-too-coarse"
-                else:
-                    ax["bounds_mid"] = [bounds[j] for j in idx]
-                    thv, pcv = th[0] / th[1], pct[0] / pct[1]
+                lmax = max(logl)
+                ratio = [math.exp(ll - lmax) for ll in logl]
+                top = max(lw)
+                bayes = np.array([math.exp(v - top) for v in lw])
+                bayes = bayes / bayes.sum()
+                fallback = np.ones(len(before)) / len(before) if kind == "smm" else pri / pri.sum()
+                real_mid = np.asarray(cap["w_mid"] if cap["w_mid"] is not None else w_post, dtype=float)
+                same_len = len(real_mid) == len(before)
+                # total underflow: the documented fallback and Bayes' rule on the log-likelihoods are both admissible;
+                # the record says which of the two the object did (anything else is logged as the fallback and rejected)
+                took_fallback = under_all and not (same_len and np.max(np.abs(real_mid - fallback)) > 1e-9
+                                                   and np.max(np.abs(real_mid - bayes)) <= 1e-6)
+                if under_all and took_fallback:
+                    rec["L"] = [0] * len(before)
                     if kind == "smm":
-                        if any(lo - 1e-9 <= thv <= hi + 1e-9 for lo, hi in bounds.values()):
-                            rec["skip"], ax["why"] = 1, "near-prune-threshold"
-                        elif all(bounds[j][1] < thv for j in idx) and any(
-                                rec["L"][j] == 0 and not under[j] and ids_before[j] in rec["mid"] for j in idx):
-                            # every model below the threshold and the survivor's likelihood is positive but
-                            # below the projection's resolution: "positive mass" cannot be decided
-                            rec["skip"], ax["why"] = 1, "all-below-survivor-under-resolution"
-                        else:
-                            keep = [j for j in idx if bounds[j][0] > thv] or idx
-                            b2, _ = _intervals(pq, rec["L"], exact, keep)
-                            if len(keep) > 1 and any(lo - 1e-9 <= pcv <= hi + 1e-9 for lo, hi in b2.values()):
-                                rec["skip"], ax["why"] = 1, "near-convergence-percentage"
-                    if not rec["skip"] and max(hi - lo for lo, hi in bounds.values()) > 0.05:
+                        ax["bounds_mid"] = None    # reset to exactly uniform
+                    else:                          # reset to the prior mode probabilities (projected)
+                        tot_q = float(sum(pq))
+                        ax["bounds_mid"] = [(max(v - 0.5, 0.0) / (tot_q + 0.5 * len(pq)), (v + 0.5) / (tot_q - 0.5 * len(pq)))
+                                            for v in pq]
+                elif not under_all and lmax < -690.0:
+                    rec["skip"], ax["why"] = 1, "largest-likelihood-denormal"
+                else:
+                    rec["L"] = [int(round(LQ * x)) for x in ratio]
+                    exact = [x == 1.0 or x == 0.0 for x in ratio]
+                    idx = list(range(len(before)))
+                    bounds, slo = _intervals(pq, rec["L"], exact, idx)
+                    if slo <= 0:
                         rec["skip"], ax["why"] = 1, "projection-too-coarse"
+                    else:
+                        ax["bounds_mid"] = [bounds[j] for j in idx]
+                        thv, pcv = th[0] / th[1], pct[0] / pct[1]
+                        if kind == "smm":
+                            if any(lo - 1e-9 <= thv <= hi + 1e-9 for lo, hi in bounds.values()):
+                                rec["skip"], ax["why"] = 1, "near-prune-threshold"
+                            elif all(bounds[j][1] < thv for j in idx) and any(
+                                    rec["L"][j] == 0 and ratio[j] != 0.0 and ids_before[j] in rec["mid"] for j in idx):
+                                # every model below the threshold and the survivor's likelihood is positive but
+                                # below the projection's resolution: "positive mass" cannot be decided
+                                rec["skip"], ax["why"] = 1, "all-below-survivor-under-resolution"
+                            else:
+                                keep = [j for j in idx if bounds[j][0] > thv] or idx
+                                b2, _ = _intervals(pq, rec["L"], exact, keep)
+                                if len(keep) > 1 and any(lo - 1e-9 <= pcv <= hi + 1e-9 for lo, hi in b2.values()):
+                                    rec["skip"], ax["why"] = 1, "near-convergence-percentage"
+                        if not rec["skip"] and max(hi - lo for lo, hi in bounds.values()) > 0.05:
+                            rec["skip"], ax["why"] = 1, "projection-too-coarse"
         recs.append(rec)
         aux.append(ax)
         if closed or not fin_ok or not par_ok:
@@ -687,7 +819,8 @@ TRACE_INVARIANTS = {
     "LoggedMoments": "combined covariance is not the moment-matched mixture covariance",
     "LoggedSymPSD": "combined covariance not symmetric positive semi-definite",
     "Continuity": "state before an update is not the state the previous update left",
-    "BayesRule": "spec-internal", "NonNegative": "spec-internal", "SumToOne": "spec-internal",
+    "ResetOnlyOnUnderflow": "spec-internal",
+    "ResetOnlyOnTrueUnderflow": "spec-internal", "BayesRule": "spec-internal", "NonNegative": "spec-internal", "SumToOne": "spec-internal",
     "AtLeastOneModel": "spec-internal", "ModeMixValid": "spec-internal", "HandBackIsSurvivor": "spec-internal",
 }
 
@@ -709,6 +842,12 @@ def validate_traces(ctx: Ctx, ntraces, max_steps):
                 ctx.violation(sig, what, rp)
     ctx.extra["traces"] = {"traces": ntraces, "traces_cut_by_model_filter_failure": invalid}
     return _validate_records(ctx, recs, aux, selftest=True)
+
+
+def _trace_sig(kind, clause, regime):
+    if regime in REGIME_SIGNATURE:
+        return f"{kind}-{REGIME_SIGNATURE[regime]}", f"[trace-{clause}] "
+    return f"{kind}-trace-{clause}", ""
 
 
 def _validate_records(ctx: Ctx, recs, aux, selftest):
@@ -742,8 +881,11 @@ def _validate_records(ctx: Ctx, recs, aux, selftest):
         if rec["kind"] == "smm" and wm and all(x < rec["th"][0] / rec["th"][1] for x in wm):
             after = "-all-below-threshold"
         name = {"LoggedFinite": "probabilities-invalid"}.get(inv, inv)
-        ctx.violation(f"{rec['kind']}-trace-{name}{after}",
-                      f"real {'StaticMultipleModel' if rec['kind'] == 'smm' else 'GeneralizedPseudoBayesian1'}: "
+        # the mechanism signature is for clauses about the probabilities; the moment clauses keep their own name
+        moment_clause = inv in ("LoggedMean", "LoggedMoments", "LoggedSymPSD", "LoggedParallel", "Continuity")
+        sig_, pre_ = _trace_sig(rec["kind"], name + after, "" if moment_clause else aux[j - 1].get("regime", ""))
+        ctx.violation(sig_,
+                      pre_ + f"real {'StaticMultipleModel' if rec['kind'] == 'smm' else 'GeneralizedPseudoBayesian1'}: "
                       f"{TRACE_INVARIANTS.get(inv, inv)} (trace {rec['tid']} update {rec['k'] + 1})",
                       {"record": rec, "aux": aux[j - 1]})
     # exact posterior of the specification vs the real weights, inside the projection error bound
@@ -778,8 +920,9 @@ def _validate_records(ctx: Ctx, recs, aux, selftest):
                     raise tlc.MachineryError(f"projection bound does not contain the specification's own value: {rec} {spec} {b}")
                 if not (lo - 1e-7 <= real[pos] <= hi + 1e-7):
                     after = "-after-reset" if not any(rec["L"]) else ""
-                    ctx.violation(f"{kind}-trace-posterior{after}",
-                                  f"real {name}: probability of model {rec['ids'][pos]} after update is {real[pos]!r}, "
+                    sig_, pre_ = _trace_sig(kind, "posterior" + after, ax.get("regime", ""))
+                    ctx.violation(sig_,
+                                  pre_ + f"real {name}: probability of model {rec['ids'][pos]} after update is {real[pos]!r}, "
                                   f"Bayes rule on the logged innovations gives [{lo:.6g}, {hi:.6g}] "
                                   f"(trace {rec['tid']} update {rec['k'] + 1})", {"record": rec, "aux": ax})
                     break
@@ -789,14 +932,16 @@ def _validate_records(ctx: Ctx, recs, aux, selftest):
             raise tlc.MachineryError(f"POST length mismatch on accepted record {j}")
         width = 0.05 if ax.get("bounds_mid") else 1e-7
         if max(abs(a - b) for a, b in zip(spec, ax["w_post"])) > width * 2 + 1e-3:
-            ctx.violation(f"{kind}-trace-final-probabilities", f"real {name}: final probabilities {ax['w_post']} differ "
+            sig_, pre_ = _trace_sig(kind, "final-probabilities", ax.get("regime", ""))
+            ctx.violation(sig_, pre_ + f"real {name}: final probabilities {ax['w_post']} differ "
                           f"from the specification {spec} (trace {rec['tid']} update {rec['k'] + 1})",
                           {"record": rec, "aux": ax})
         if kind == "gpb1" and rec["obs"]:
             mm = posts[j]["mode"]
             specm = [x / sum(mm) for x in mm]
             if max(abs(a - b) for a, b in zip(specm, ax["m_post"])) > 0.1 + 1e-3:
-                ctx.violation("gpb1-trace-mode-probabilities", f"real {name}: mode probabilities {ax['m_post']} differ "
+                sig_, pre_ = _trace_sig(kind, "mode-probabilities", ax.get("regime", ""))
+                ctx.violation(sig_, pre_ + f"real {name}: mode probabilities {ax['m_post']} differ "
                               f"from the mixed posterior {specm}", {"record": rec, "aux": ax})
     missed = [bad_copies[j][0] for j in range(len(bad_copies)) if j not in rejected_copies]
     if missed and not flagged and not ctx.violations:
@@ -897,18 +1042,25 @@ def run(ctx: Ctx):
         "models are constructed directly (AdaptiveFilter.initialize() and its database queries are bypassed); weights and "
         "mode probabilities start at 1/n as initialize() sets them",
         "replay: real likelihood = c * integer likelihood of the spec, realised through each model's prepared innovation and "
-        "innovation covariance (c common to the models of one update); comparisons with exact rationals at 1e-9",
+        "innovation covariance; c is common to the models of one update and is drawn from regimes in which every non-zero "
+        "likelihood stays representable: NIS 0..33, all NIS in 70..1300, det(S) underflowing (12 or 40 stacked dimensions "
+        "of variance 1e-30 / 1e-10) or overflowing (1e30 / 1e10); comparisons with exact rationals at 1e-9",
+        "likelihood 0 of the spec = TRUE underflow: exp(log-likelihood) is 0.0 in IEEE double however it is evaluated; only "
+        "when that holds for every model may the documented fallback replace Bayes' rule. In such updates the replay makes "
+        "prior * likelihood equal for all models, and the trace records which of fallback / log-domain Bayes the object "
+        "applied, so an implementation that evaluates the likelihood with logarithms is admissible too",
         "the chi-square gate is an environment boolean of the spec; replay realises it with combined NIS <= 0.08 (holds) or "
         ">= 30 (fails); after a total underflow every NIS exceeds 1400 and the gate cannot hold",
         "thresholds k/101, k/1009 never coincide with a reachable probability (TLC invariant TieFree)",
         "trace direction: probabilities projected to integers /4000, likelihood ratios to /1000; updates whose rigorous "
-        "projection interval contains a threshold, is wider than 0.05, or whose total mass lies in (0, 1e-12) (where "
-        "fpe_equals may or may not reset) are skipped as undecided and counted",
+        "projection interval contains a threshold or is wider than 0.05, whose largest likelihood is denormal (< 1e-300), or "
+        "whose innovation covariance is so ill-conditioned that the NIS depends on the solver (1e-7 relative) are skipped "
+        "as undecided and counted; 1 to 13 observations are stacked per update (up to 40 dimensions)",
         "GPB1 hands back the mixture (documented); when every model is below prune_threshold any single survivor with "
         "positive probability is admissible",
     ]
     plans = _plans(ctx.quick)
-    ntraces, max_steps = (120, 4) if ctx.quick else (1200, 6)
+    ntraces, max_steps = (100, 4) if ctx.quick else (1000, 6)
     nproc = max(1, min(8, ctx.cpus // 2))
     pool = mp.get_context("fork").Pool(nproc)       # forked before any thread exists
     _RT["pool"] = pool
